@@ -3,7 +3,7 @@ Specification for C07.
 
 1. What "a valid ordering" means: `IsCmp` (a comparator that is a total preorder), and the
    string-level laws `Total`, `Refl`, `Antisymm`, `TransOn` about `Parse` + `CompareStr`.
-2. Which strings the transitivity claim is about per family (`grammarValid`) and the two classes of
+2. Which strings the transitivity claim is about per family (`acceptedByCode`) and the two classes of
    known findings (`knownClass`) — both executable, the driver prints them for the oracle.
 3. semver.org §11 precedence, written independently of the implementation (`SemVer`, `specCmp`,
    `render`).
@@ -132,7 +132,7 @@ def mvnCanonToks (v : List MTok) : Bool :=
   | none => false
 
 /-- the strings whose triples the transitivity claim (and the oracle) is about -/
-def grammarValid (f : Fam) (s : List Char) : Bool :=
+def acceptedByCode (f : Fam) (s : List Char) : Bool :=
   match f with
   | .packagist => pkNoHash (parsePk s)
   | .alpine =>
